@@ -40,33 +40,33 @@ _c("C11", "exploration", "schedule exploration by property-based testing (propte
    "2-5 writer tasks on one fresh session doing what real callers do (incl. 65530-65540-byte sends), transport stalls of up to 61 s mid-history, the session's own keep-alive monitor as one more writer; wire must parse, equal the submitted multiset, keep per-task FIFO, start with the settings frame and keep SYN before PSH. Sampling of schedules at hook points only.",
    "schedules are explored at H1 points, transport Pendings and spawn order on a single-threaded runtime; data races below the await level are out of reach")
 _c("C12", "exploration", "model-based property testing (proptest) in virtual time: generated pool histories vs a validity predicate evaluated around every reaper tick",
-   "Add/Get/Kill/Advance/Cleanup histories on the real SessionPool with in-memory sessions; predicate: never a closed session from Get, only expired sessions reaped, never below min idle, at most min idle expired survivors, idle_count agrees. Lab-S: a real client with 1 s / 2 s timers holding streams across reaper ticks (in-use sessions must survive: listed known finding, keyed on the in-use model) and bursts of 2-24 simultaneous requests on an empty pool (idle_count and hand-outs vs the model of dialled-and-not-taken sessions).",
+   "Add/Get/Kill/Advance/Cleanup histories on the real SessionPool with in-memory sessions (some with slow-closing transports; cleanup_expired racing with get_idle_session); predicate: never a closed session from Get, only expired sessions reaped, never below min idle, at most min idle expired survivors, idle_count agrees. Lab-S: a real client with 1 s / 2 s timers holding streams across reaper ticks (in-use sessions must survive: listed known finding, keyed on the in-use model) and bursts of 2-24 simultaneous requests on an empty pool (idle_count and hand-outs vs the model of dialled-and-not-taken sessions).",
    "which survivor is kept is left open; exact-boundary ages may go either way")
 _c("C14", "exploration", "property-based testing (proptest) in virtual time over an (interval, timeout) grid x peer behaviours vs a reference spec of allowed close instants",
    "Real client session with heartbeat config against the real server session (delayed pipes) or a scripted peer that falls silent at generated instants, with/without traffic and send-buffer exhaustion; safe/detect/answer clauses on sampled is_closed. Plus a real-time glue family: the real Client (settings 1-3 s) against the reference server answering always, never, or only the first n requests.",
    "is_closed sampled every 100 ms virtual; 150 ms slack on the detect bound")
 _c("C17", "exploration", "property-based differential testing (proptest) of the request parser/rewriter against a reference HTTP reading; grammar-based request generator",
-   "Generated well-formed proxy requests (all target forms, IPv6, ports, header sets up to ~64 KiB, Host in any case/position, body prefix) through the private parse+rewrite functions (H6). Lab-S family `proxy`: the same request grammar in generated TCP segmentations (cuts inside the header terminator, header sizes at multiples of the 1 KiB read size) against the real HTTP listener -> client -> server -> recording origin; CONNECT: 200 only after the tunnel exists, 502 otherwise, early data forwarded; libFuzzer target http_rewrite.",
+   "Generated well-formed proxy requests (all target forms, IPv6, ports, header sets up to ~64 KiB, Host in any case/position, body prefix) through the private parse+rewrite functions (H6). Lab-S family `proxy`: the same request grammar in generated TCP segmentations (cuts inside the header terminator, header sizes at multiples of the 1 KiB read size, bursts of 8 KiB - 300 KB behind the header) against the real HTTP listener -> client -> server -> recording origin; CONNECT: 200 only after the tunnel exists, 502 otherwise, early data forwarded; libFuzzer target http_rewrite.",
    "generator restricted to what senders produce (lower-case scheme, no userinfo, UTF-8); reference per RFC 7230 §5.3/5.4")
 _c("C18", "fault_enumeration", "enumeration of on-disk fault states (every truncation prefix, missing/garbled/mismatched/expired files) + property-based reload histories (proptest) vs a last-good-pair model, with real in-memory TLS handshakes",
-   "After every step the leaf certificate presented in a real handshake (signature verified), cert info and counters must match the last pair whose reload succeeded; old connections keep working. Plus the real Server::new_with_reloadable_tls accept path on loopback.",
+   "Pool of single certificates and chain files (leaf + CA). After every step the leaf certificate presented in a real handshake (signature verified), cert info and counters must match the last pair whose reload succeeded; old connections keep working. Plus the real Server::new_with_reloadable_tls accept path on loopback.",
    "prefixes ending inside the final PEM line may load or not; watcher/debounce not driven")
 
 _c("C07", "exploration", "property-based testing (proptest): round trip + differential against a reference SOCKS address codec (Lab-M), resolver histories against a fake DNS, end-to-end dial histories on loopback",
    "Destinations of every address type and length through the real client encoder and the real server decoder (also each against the reference), resolver call histories with cache ageing, simultaneous first lookups, and request histories by name through the SOCKS5 and HTTP front-ends (CONNECT, origin-form + Host with another listener's URL in the query, absolute-form) to listeners on distinct loopback addresses/ports: the requested listener, and only it, must be dialled. Family `front`: any IPv4/IPv6 address, names of 1..255 bytes and any port through both front-ends and the real client in generated segmentations, the destination read by the reference server (nothing dialled).",
    "fake DNS installed through the public set_custom_dns_servers; H7 ages the cache; kernel loopback for the dial family")
 _c("C16", "exploration", "property-based testing (proptest) of the real SOCKS5 listener on loopback against a reference model of RFC 1928; generated greetings/requests and TCP segmentations",
-   "Generated greetings, requests (all commands, address types, versions) and segmentations against the real front-end -> client -> TLS -> server -> loopback targets, with a neighbour connection, names of every length 1..255 and arbitrary addresses/ports observed by the reference server (family `front`), optionally a second connection holding an unfinished greeting throughout, and a fresh connection afterwards. Sampling; negatives are evaluated after the front-end replied or closed.",
+   "Generated greetings, requests (all commands, address types, versions) and segmentations against the real front-end -> client -> TLS -> server -> loopback targets, with a neighbour connection, names of every length 1..255 and arbitrary addresses/ports observed by the reference server, also with faults in the AnyTLS leg that must be answered with a failure code (family `front`), optionally a second connection holding an unfinished greeting throughout, and a fresh connection afterwards. Sampling; negatives are evaluated after the front-end replied or closed.",
    "kernel loopback timing; one shared world per worker thread; localhost resolves to 127.0.0.1")
 
 _c("C13", "exploration", "property-based testing (proptest) of request histories through the real SOCKS5 front-end with a counting TCP forwarder in front of the real server; invariants over the connection counts",
-   "Generated sequential/bursty request histories with pauses, requests to a closed port and network cuts of every established session, pool settings varied (incl. 1 s / 2 s timers); the forwarder counts TLS connections opened and still open and the client's idle_count is compared with the pool model after every step. r2 (second non-overlapping request reuses) is armed; r3+ and the bound are listed known findings with witnesses (sessions are never returned to the pool).",
+   "Generated sequential/bursty request histories with pauses, requests to a closed port and network cuts of every / of one established session, pool settings varied (incl. 1 s / 2 s timers); the forwarder counts TLS connections opened and still open and the client's idle_count is compared with the pool model after every step. r2 (second non-overlapping request reuses) is armed; r3+ and the bound are listed known findings with witnesses (sessions are never returned to the pool).",
    "kernel loopback; forwarder accept count = sessions dialled; pool model: dial inserts, reuse removes, nothing returns (today's lifecycle)")
 _c("C15", "exploration", "property-based testing (proptest): end-to-end datagram sequences in lock-step through create_udp_proxy on loopback, and the server relay fed a reference UDP-over-TCP stream with generated fragmentation",
-   "Datagram sizes 1..65507 with keyed contents in both directions through the real client/server; IPv4 and IPv6 targets; server relay alone with cuts inside length prefixes and several packets per chunk; the real client's association against a reference server that echoes each datagram in fragments with 0-2600 ms between the frames; exactly-one/identical/ordered delivery and silence of a decoy socket.",
+   "Datagram sizes 1..65507 with keyed contents in both directions through the real client/server; IPv4 and IPv6 targets, stray datagrams from a third socket to the relay; server relay alone with cuts inside length prefixes and several packets per chunk; the real client's association against a reference server that echoes each datagram in fragments with 0-2600 ms between the frames; exactly-one/identical/ordered delivery and silence of a decoy socket.",
    "kernel loopback UDP in lock-step (no socket buffer loss); reference UoT framing")
 _c("C19", "exploration", "property-based testing (proptest) of process-level histories, each in a fresh child process, against a scripted reference server that observes the client's plaintext; reference scheme family with distinct fixed sizes",
-   "1-4 sessions of one real Client per process, server scheme per connection (parsable with distinct sizes / the built-in scheme / unparsable), client schemes incl. stop=1, default used before or not; packet sizes, announced md5, preamble padding and push counts judged against the scheme that must be in force. Plus the real server session's push decision in Lab-M.",
+   "1-4 sessions of one real Client per process, server scheme per connection (parsable with distinct sizes / the built-in scheme / unparsable), client schemes incl. stop=1, default used before or not; packet sizes, announced md5, preamble padding and push counts judged against the scheme that must be in force. Plus the real server session's push decision and exact pushed bytes in Lab-M (scheme texts ending in LF / CRLF / spaces).",
    "one child process per history; the reference server's plaintext view; packets delimited by the child's known call pattern")
 
 _c("C20", "exploration", "mutational property-based testing (proptest) of established real sessions and parsers with panic/allocation/quiescence/watchdog monitors and a sibling-stream oracle; coverage-guided fuzzing (libFuzzer via cargo-fuzz) of the same oracles in the thorough tier",
